@@ -60,3 +60,37 @@ package sim
 //@     before[decision_errors_abort_the_run] res(Err, 1) == nil
 //@   at getPowerTable 2
 //@     before[completed_instance_needs_consensus] res(HasCompleted, 1) && res(HasReachedConsensus, 1, 1)
+
+// "honest participants that completed an instance disagree ⇒ error" rests on these two: an instance has completed
+// when every non-excluded member of the table has a recorded decision, and consensus holds when all those decisions
+// are for the same chain.
+//@ func (*ECInstance).HasCompleted
+//@   property C19
+//@   modifies auto
+//@   maypanic
+//@   loop 2
+//@     invariant len(eci.PowerTable.Entries) - iter <= wantDecisions && wantDecisions <= len(eci.PowerTable.Entries) && 0 <= gotDecisions && gotDecisions <= iter
+//@   at loopback 1
+//@     before[every_excluded_id_is_noted] has(exclusions, id)
+//@   at loopback 2
+//@     before[an_excluded_member_is_not_waited_for] excluded == has(exclusions, entry.ID) && (excluded ==> wantDecisions == prev(wantDecisions) - 1 && gotDecisions == prev(gotDecisions))
+//@     before[a_member_counts_as_done_exactly_when_it_has_a_recorded_decision] !excluded ==> wantDecisions == prev(wantDecisions) && gotDecisions == prev(gotDecisions) + ite(has(eci.decisions, entry.ID), 1, 0)
+//@   at return 0
+//@     before[completed_when_every_awaited_member_decided] arg(0) == (wantDecisions == gotDecisions)
+
+//@ func (*ECInstance).HasReachedConsensus
+//@   property C19
+//@   modifies auto
+//@   maypanic
+//@   at loopback 1
+//@     before[every_excluded_id_is_noted] has(exclusions, id)
+//@   at loopback 2
+//@     before[every_member_is_excluded_or_decided_the_common_value] found == has(exclusions, powerEntry.ID) && (found || (has(eci.decisions, powerEntry.ID) && res(Eq, 1)
+//@          && argOf(Eq, 1, 0) == eci.decisions[powerEntry.ID].Vote.Value && argOf(Eq, 1, 1) == consensus))
+//@     before[the_common_value_is_the_first_decision_and_never_changes] prev(consensus) != nil ==> consensus == prev(consensus)
+//@   at return 1
+//@     before[an_undecided_member_means_no_consensus] !arg(1) && !has(eci.decisions, powerEntry.ID) && !has(exclusions, powerEntry.ID)
+//@   at return 2
+//@     before[a_differing_decision_means_no_consensus] !arg(1) && !res(Eq, 1)
+//@   at return 3
+//@     before[consensus_is_reported_with_the_common_value] arg(1) && arg(0) == consensus
